@@ -238,6 +238,9 @@ def run_property(pid, tier='quick', seed=0, only=None, jobs=None):
     if not only:
         with open(os.path.join(evdir, pid + '.json'), 'w') as f:
             json.dump(ev, f, indent=1)
+        os.makedirs(os.path.join(evdir, 'by_tier'), exist_ok=True)          # the last run of EACH tier is kept as well
+        with open(os.path.join(evdir, 'by_tier', f'{pid}.{tier}.json'), 'w') as f:
+            json.dump(ev, f, indent=1)
 
     for line in sorted(set(known_lines)):
         print(line)
